@@ -286,6 +286,9 @@ func isRootTest(p *Prog, f condFact) bool {
 func runC11(c *Ctx) {
 	p := c.P
 	const P = "C11"
+	if ent0, err0 := p.entrySet(); err0 == nil {
+		runAuthCtxFresh(c, P, ent0.ConnLoop)
+	}
 	c.rule(P, "flow", "T-FLOW with edge conditions: ownership values come from the effective identity, the current owner, or the request only under EffectiveUID==0", 8)
 	c.rule(P, "chown-new", "CREATE/MKDIR/SYMLINK: every path to an NFS3_OK reply passes a backend Chown/Lchown", 3)
 	c.rule(P, "eff-writer", "EffectiveUID/GID stored only in HandleCall from the AuthResult", 2)
